@@ -18,6 +18,8 @@ M = {
  "modack-positive-moves-earlier": ("actions/delay-deliveries.go", "\t\tpredicates = append(predicates, delivery.AttemptAtLT(newAttemptAt))\n", ""),
  "nolimit": ("actions/get-subscription-messages.go", "\t\tLimit(a.params.MaxMessages).\n", ""),
  "sub-expiry-not-refreshed": ("actions/get-subscription-messages.go", "\t// refresh the subscription expiration\n\terr := tx.Subscription.UpdateOne(sub).\n\t\tSetExpiresAt(now.Add(time.Duration(sub.TTL))).\n\t\tExec(ctx)", "\tvar err error"),
+ "notify-before-commit": ("actions/notify.go", "func notifyPublish(tx *ent.Tx, subIDs ...uuid.UUID) {\n", "func notifyPublish(tx *ent.Tx, subIDs ...uuid.UUID) {\n\tWakePublishListeners(false, subIDs...)\n"),
+ "deadletter-complete-first-own-tx": ("actions/delivery-utils.go", "\tif dlTopic != nil && len(dlTopic.Edges.Subscriptions) != 0 {", "\tif dlTopic != nil && len(dlTopic.Edges.Subscriptions) != 0 && false {"),
  "wake-return-not-continue": ("actions/notify.go", "\t\tif waitSet == nil {\n\t\t\tcontinue\n\t\t}", "\t\tif waitSet == nil {\n\t\t\treturn\n\t\t}"),
 }
 def sh(*a, **k): return subprocess.run(a, **k)
